@@ -57,6 +57,13 @@ mod imp {
         }
     }
 
+    // `SingletonHolder: Default` is derived and therefore asks for `T: Default` (the default holder is empty anyway)
+    impl Default for Payload {
+        fn default() -> Payload {
+            Payload::new(0)
+        }
+    }
+
     impl Drop for Payload {
         fn drop(&mut self) {
             if self.dropped.fetch_add(1, Ordering::Relaxed) != 0 {
@@ -184,6 +191,9 @@ mod imp {
 
     const MAX_STEPS: usize = 400;
 
+    /// Which public constructor builds the holder for a run (`new()` is const, `default()` comes from the derive).
+    pub static USE_DEFAULT_CTOR: std::sync::atomic::AtomicBool = std::sync::atomic::AtomicBool::new(false);
+
     /// Execute one schedule: `prefix` fixes the first choices, 0 afterwards.
     pub fn run_schedule(cfg: &Config, prefix: &[usize]) -> RunOut {
         let n = cfg.len();
@@ -192,7 +202,7 @@ mod imp {
             cv: Condvar::new(),
         });
         set_tracer(Some(Arc::new(SchedTracer { sched: sched.clone() })));
-        let holder: Arc<SingletonHolder<Payload>> = Arc::new(SingletonHolder::new());
+        let holder: Arc<SingletonHolder<Payload>> = if USE_DEFAULT_CTOR.load(Ordering::Relaxed) { Arc::new(SingletonHolder::default()) } else { Arc::new(SingletonHolder::new()) };
         let drops_before = DROPS.load(Ordering::SeqCst);
         let mut joins = Vec::new();
         let mut sets = 0u64;
@@ -606,6 +616,8 @@ mod imp {
             let mut count = 0u64;
             let mut overlap_loading = 0u64;
             loop {
+                // both public constructors must give an unset holder: alternate between them
+                USE_DEFAULT_CTOR.store(count % 2 == 1, Ordering::Relaxed);
                 let out = run_schedule(cfg, &prefix);
                 count += 1;
                 rep.eval();
@@ -644,6 +656,7 @@ mod imp {
                 }
                 // distinct: (configuration, schedule) and outcome vectors
                 rep.distinct(&format!("{}#{}", name, sched_s));
+                rep.obs(if count % 2 == 0 { "schedules_on_default_constructed_holder" } else { "schedules_on_new_constructed_holder" }, 1);
                 if rep.want_sample() {
                     rep.sample(|| jobj! {"configuration" => name.as_str(), "schedule" => sched_s.as_str(), "trace" => trace_json(&out.trace)});
                 }
